@@ -749,6 +749,9 @@ class CompositeEnvelopeContainer:
             Other composite envelope container
         """
         assert isinstance(other, CompositeEnvelopeContainer)
+        # The product states now belong to this container
+        for product_state in other.states:
+            product_state.container = self
         self.states.extend(other.states)
         self.envelopes.extend(other.envelopes)
 
@@ -815,6 +818,7 @@ class CompositeEnvelope:
                 composite_envelopes.append(e.composite_envelope)
 
         ce_container = None
+        absorbed_containers: List[CompositeEnvelopeContainer] = []
         for ce in composite_envelopes:
             assert isinstance(
                 ce, CompositeEnvelope
@@ -825,6 +829,7 @@ class CompositeEnvelope:
             elif CompositeEnvelope._containers[ce.uid] is not ce_container:
                 # Handles which already share the container have nothing to add
                 ce_container.append_states(CompositeEnvelope._containers[ce.uid])
+                absorbed_containers.append(CompositeEnvelope._containers[ce.uid])
             ce.uid = self.uid
         if ce_container is None:
             ce_container = CompositeEnvelopeContainer(self.uid)
@@ -838,10 +843,17 @@ class CompositeEnvelope:
                 ce_container.state_objs.append(s)
 
         CompositeEnvelope._containers[self.uid] = ce_container
+        # Handles which were not given here, but point to an absorbed container, have
+        # to see the merged content as well
+        for uid, container in list(CompositeEnvelope._containers.items()):
+            if any(container is absorbed for absorbed in absorbed_containers):
+                CompositeEnvelope._containers[uid] = ce_container
         if not CompositeEnvelope._instances.get(self.uid):
             CompositeEnvelope._instances[self.uid] = []
         CompositeEnvelope._instances[self.uid].append(self)
         self.update_composite_envelope_pointers()
+        # Product states taken over from other containers changed their position
+        ce_container.update_all_indices()
 
     def __repr__(self) -> str:
         return (
